@@ -383,7 +383,15 @@ class SeriesOps:
         if name == "pd.Series":
             if isinstance(a0, Ser):
                 return a0
-            st = ("series", to_term(a0 if pos else kw.get("data")))
+            data = a0 if pos else kw.get("data")
+            dt = to_term(data)
+            ix = kw.get("index", pos[1] if len(pos) > 1 else None)
+            # law: pd.Series([f(row) for _, row in df.iterrows()], index=df.index) == df.apply(f, axis=1): one value per row of df, in row order, labelled by df's index
+            if isinstance(dt, tuple) and len(dt) == 5 and dt[0] == "comp" and dt[1] == "list" and dt[4] == T.TRUE and isinstance(dt[3], tuple) and dt[3] and dt[3][0] == "rowiter" \
+                    and isinstance(ix, Ser) and ix.name == "__index__" and ix.frame is not None and ix.ctx == dt[3][1]:
+                from .pandas_ops import _strip_row
+                return Ser(_strip_row(dt[2]), ix.ctx, ix.frame)
+            st = ("series", dt)
             return Ser(st, (("series", self.I.new_id()), T.TRUE, None), None)
         if name == "pd.to_numeric":
             if isinstance(a0, Ser):
